@@ -9,7 +9,7 @@ import (
 
 func init() {
 	props["C19"] = &propCheck{
-		lean: []string{"JSight.Props.C19"},
+		lean: []string{"JSight.Props.C19", "JSight.Props.C19_Build"},
 		exes: []string{"jsight-model", "jsight-build"},
 		run:  runC19,
 		rule: "tag names: all first-segment strings over {_,%,.,space,a,F,0,é-bytes,@,~} up to the length bound (all pairs compared through a hash of the produced name) and all 256 single bytes; documents: generated mixes of method-level, URL-level and absent Tags for HTTP and JSON-RPC interactions; a case is non-trivial when the segment contains a byte that is escaped or doubled / when the document has >= 2 interactions",
